@@ -1,3 +1,5 @@
 import CspuzModel.Properties.C13
 #print axioms Cspuz.C13.C13_getitem
 #print axioms Cspuz.C13.C13_reshape
+#print axioms Cspuz.C13.C13_nested
+#print axioms Cspuz.C13.C13_nested_getitem
